@@ -155,7 +155,13 @@ def case_unrestrict(case):
         return viols, feats, counters, sample
     # expected by the documented rules, independent of the properties of the class
     if mo.occs is not None:
-        ea, eb = go.documented_spin_occupations(mo.occs, mo.occs_aminusb)
+        adm = go.admissible_spin_occupations(mo.occs, mo.occs_aminusb)
+        ea, eb = adm[0]
+        if new.occs is not None:
+            for xa, xb in adm:
+                if np.allclose(new.occsa, xa, rtol=1e-15, atol=1e-15) and np.allclose(new.occsb, xb, rtol=1e-15, atol=1e-15):
+                    ea, eb = xa, xb
+                    break
         if new.occs is None or not (np.allclose(new.occsa, ea, rtol=1e-15, atol=1e-15) and np.allclose(new.occsb, eb, rtol=1e-15, atol=1e-15)):
             viols.append(_v("unrestricted-occupations", f"alpha/beta occupations {None if new.occs is None else new.occs.tolist()} "
                             f"expected {ea.tolist()} / {eb.tolist()}"))
@@ -269,8 +275,9 @@ def case_prepare(case):
                         gto.eval_basis(res.obasis, data.atcoords, pts) - gto.eval_basis(data.obasis, data.atcoords, pts)).max() > 1e-13:
                     viols.append(_v("prepare-result", f"{tag}: basis functions changed"))
             else:
-                ea, eb = go.documented_spin_occupations(data.mo.occs, data.mo.occs_aminusb)
-                if res.mo.kind != "unrestricted" or not np.allclose(res.mo.occsa, ea, atol=1e-15) or not np.allclose(res.mo.occsb, eb, atol=1e-15):
+                adm = go.admissible_spin_occupations(data.mo.occs, data.mo.occs_aminusb)
+                if res.mo.kind != "unrestricted" or not any(np.allclose(res.mo.occsa, ea, atol=1e-15) and np.allclose(res.mo.occsb, eb, atol=1e-15)
+                                                               for ea, eb in adm):
                     viols.append(_v("prepare-result", f"{tag}: orbitals not converted to the documented alpha/beta occupations"))
             # other attributes of the shallow copy are the very same objects
             for name in ("atcoords", "atnums"):
